@@ -1,0 +1,11 @@
+//go:build verif
+// +build verif
+
+package masswallet
+
+// Accessor used by the verification harness (/verif, property C19). Add-only; compiled only
+// with the build tag "verif". It exposes the node handle the manager was constructed with, so
+// that an api.APIServer can be built around the same node (api.NewAPIServer needs a MassNode).
+
+// VerifServer returns the server passed to NewWalletManager.
+func (w *WalletManager) VerifServer() Server { return w.server }
